@@ -12,6 +12,7 @@ import (
 	"sort"
 	"strconv"
 	"strings"
+	"sync"
 )
 
 // MyStr is a named string type (JSON-encoded even inside string literals).
@@ -115,7 +116,8 @@ func (sp Spec) LeafString() string {
 // (numbers, true/false/null); "int" as a Go int64.
 var Shapes = []string{"str", "named", "arr", "strslice", "mapval", "mapkey", "mapss", "nested", "struct", "json", "int",
 	"raw", "rawindent", "rawstr", "marshaler", "rawfield", "num",
-	"unenc_mapbool", "unenc_chan", "unenc_func", "unenc_nan", "unenc_err", "unenc_inf32"}
+	"unenc_mapbool", "unenc_chan", "unenc_func", "unenc_nan", "unenc_err", "unenc_inf32",
+	"enum_int", "enum_text_bool", "enum_float_obj", "enum_uint_text", "enum_ptr", "enum_slice", "enum_map", "enum_prval"}
 
 // NumKinds: Go types of the "num" shape; its leaf is "<kind>:<literal>". The
 // value is the literal converted to that type (float literals are rounded to the
@@ -137,6 +139,39 @@ type (
 		U  uint64   `json:"u"`
 	}
 )
+
+// EnumShapes: values whose Go KIND is numeric or bool but whose JSON encoding is
+// a string or an object carrying the leaf (the usual enum: `type Level int` that
+// marshals as "warn"), through MarshalJSON / MarshalText, value and pointer
+// receivers, top level and inside containers. enum_prval is the control: a
+// pointer-receiver method on a value that is not addressable is not used, the
+// value encodes as the number 7.
+var EnumShapes = []string{"enum_int", "enum_text_bool", "enum_float_obj", "enum_uint_text", "enum_ptr", "enum_slice", "enum_map", "enum_prval"}
+
+// The text the enum types marshal to. A bool or small int cannot carry a string,
+// so it is looked up here: Spec.Go sets it, the Marshal methods read it. The
+// driver builds and renders one value at a time; the harness holds EnumMu
+// around Go() + json.Marshal.
+var (
+	EnumMu   sync.Mutex
+	enumText string
+)
+
+type (
+	LevelInt int     // MarshalJSON -> JSON string
+	FlagBool bool    // MarshalText
+	Ratio    float64 // MarshalJSON -> JSON object
+	LevelU8  uint8   // MarshalText (also usable as a map key)
+	LevelPR  int32   // MarshalJSON on the pointer receiver
+)
+
+func (LevelInt) MarshalJSON() ([]byte, error) { return json.Marshal(enumText) }
+func (FlagBool) MarshalText() ([]byte, error) { return []byte(enumText), nil }
+func (Ratio) MarshalJSON() ([]byte, error) {
+	return json.Marshal(map[string]any{"k": enumText, "a": []string{enumText}})
+}
+func (LevelU8) MarshalText() ([]byte, error)  { return []byte(enumText), nil }
+func (*LevelPR) MarshalJSON() ([]byte, error) { return json.Marshal(enumText) }
 
 // UnencShapes are values encoding/json refuses, each carrying the leaf string.
 // What the emitted JavaScript evaluates to is not judged for them (the encoders
@@ -290,6 +325,31 @@ func (sp Spec) Go() any {
 		return RawDoc{ID: 7, Doc: json.RawMessage(`{"k": ` + string(q) + `}`), M: map[string]json.RawMessage{"x": q}, L: []json.RawMessage{q, json.RawMessage("null")}, P: PreEncoded{string(q)}}
 	case "num":
 		return numValue(s)
+	case "enum_int":
+		enumText = s
+		return LevelInt(3)
+	case "enum_text_bool":
+		enumText = s
+		return FlagBool(true)
+	case "enum_float_obj":
+		enumText = s
+		return Ratio(0.5)
+	case "enum_uint_text":
+		enumText = s
+		return LevelU8(200)
+	case "enum_ptr":
+		enumText = s
+		l := LevelPR(7)
+		return &l
+	case "enum_slice":
+		enumText = s
+		return []any{[]LevelInt{3}, []LevelPR{7}, []FlagBool{true, false}, [1]Ratio{0.5}}
+	case "enum_map":
+		enumText = s
+		return map[string]any{"lvl": LevelInt(3), "flag": FlagBool(false), "byKey": map[LevelU8]Ratio{200: 0.5}}
+	case "enum_prval":
+		enumText = s
+		return LevelPR(7)
 	case "unenc_mapbool":
 		return map[bool]string{true: s}
 	case "unenc_chan":
